@@ -50,6 +50,9 @@ pub fn c12_case(rs: u64, _nonce: u64, replay: Option<Vec<u32>>) -> CaseOutcome {
         },
         max_pdos: if rich { 8 } else { 3 },
         max_entries: if rich { 12 } else { 4 },
+        // FMMU_EX categories (3 byte entries: odd counts end in a pad byte)
+        fmmu_ex_pct: if crate::tape::gen() >= 2 { 40 } else { 0 },
+        max_pd_sms_per_dir: if crate::tape::gen() >= 2 { 2 } else { GenCfg::default().max_pd_sms_per_dir },
         ..GenCfg::default()
     };
     let n = 1 + t.choose(2, "n_devices");
@@ -746,6 +749,7 @@ pub fn c14_case(rs: u64, _nonce: u64, replay: Option<Vec<u32>>) -> CaseOutcome {
     let mut t = tape_of(rs, replay);
     let mut out = CaseOutcome::default();
     let cfg = GenCfg::default();
+    let mut big_eeprom = false;
     let (mut specs, mut seg) = netgen::gen_network(&mut t, &cfg, 1);
     // Random header words (the alias write must preserve them and compute the CRC over them).
     {
@@ -758,6 +762,13 @@ pub fn c14_case(rs: u64, _nonce: u64, replay: Option<Vec<u32>>) -> CaseOutcome {
         s.eeprom = s.image.encode(true);
         // A checksum word that does not match (an interrupted earlier write, a factory image
         // that was never sealed): the alias write must leave a correct one behind all the same.
+        // An EEPROM of more than 64 KiB (word addresses from 0x8000 up exist).
+        if crate::tape::gen() >= 2 && t.flag(15, 100, "big_eeprom") {
+            let kbit = t.pick(&[1024usize, 2048, 4096], "big_kbit");
+            s.image.header.size_word = (kbit - 1) as u16;
+            s.eeprom = s.image.encode(true);
+            big_eeprom = true;
+        }
         if crate::tape::gen() >= 2 && t.flag(30, 100, "stale_checksum") {
             let v = (t.bits32("stale_crc") as u16) | 0x0100;
             s.eeprom[14..16].copy_from_slice(&v.to_le_bytes());
@@ -793,6 +804,10 @@ pub fn c14_case(rs: u64, _nonce: u64, replay: Option<Vec<u32>>) -> CaseOutcome {
     th.add(mode as u64);
     th.add(cmd_errors as u64);
     w.sim.seg.devices[0].stats.sii_write_cmds = 0;
+    // gen >= 2: one datagram of the judged operation goes unanswered by the device. The call must
+    // then fail, or - if it reports success - have stored exactly what it was asked to store.
+    let skip_fault = crate::tape::gen() >= 2 && mode != 2 && w.sim.tape.flag(20, 100, "one_datagram_unanswered");
+    let skip_at = if skip_fault { w.sim.tape.choose(24, "unanswered_position") as u64 } else { 0 };
     if mode == 0 || mode == 2 {
         let mut alias = match w.sim.tape.choose(4, "alias_class") {
             0 => w.sim.tape.pick(&[0u16, 1, 0xffff, 0x8000, 0x00ff, 0xff00, 0x1234], "alias_edge"),
@@ -829,6 +844,11 @@ pub fn c14_case(rs: u64, _nonce: u64, replay: Option<Vec<u32>>) -> CaseOutcome {
         } else {
             w.sim.seg.devices[0].arm_sii_cmd_errors(cmd_errors);
         }
+        if skip_fault {
+            let base = w.sim.seg.devices[0].serviced_counter;
+            w.sim.seg.devices[0].faults.skip_one = Some(base + skip_at);
+            w.sim.seg.devices[0].first_refused = None;
+        }
         let res = {
             let mut it = group.iter_mut(md);
             let mut sd = it.next().expect("one device");
@@ -858,7 +878,17 @@ pub fn c14_case(rs: u64, _nonce: u64, replay: Option<Vec<u32>>) -> CaseOutcome {
                     want[14..16].copy_from_slice(&crc.to_le_bytes());
                     let writes_needed = (before[8..10] != want[8..10]) as u32 + (before[14..16] != want[14..16]) as u32;
                     let _ = writes_needed;
-                    if cmd_errors <= 20 {
+                    let unanswered = w.sim.seg.devices[0].first_refused;
+                    if unanswered.is_some() {
+                        out.faults.insert("single_datagram_unanswered".into(), 1);
+                    }
+                    if unanswered.is_some() && r.is_err() {
+                        // Legitimate failure: nothing outside the two words may have changed.
+                        let untouched: Vec<&usize> = diff.iter().filter(|i| **i != 4 && **i != 7).collect();
+                        if !untouched.is_empty() {
+                            out.violations.push(viol("alias-write-touched-other-words", format!("words {:?} changed", untouched)));
+                        }
+                    } else if cmd_errors <= 20 {
                         if let Err(e) = r {
                             out.violations.push(viol("alias-write-error", format!("set_alias_address({:#06x}) with {} command errors failed with {:?}", alias, cmd_errors, e)));
                         } else {
@@ -887,12 +917,26 @@ pub fn c14_case(rs: u64, _nonce: u64, replay: Option<Vec<u32>>) -> CaseOutcome {
     } else {
         // Generic write of 2..8 bytes (typed API) at any word address.
         let words = before.len() / 2;
-        let addr = match w.sim.tape.choose(3, "addr_class") {
+        let mut addr = match w.sim.tape.choose(3, "addr_class") {
             0 => w.sim.tape.choose(0x40, "addr_low"),
             1 => words - 1 - w.sim.tape.choose(8, "addr_end"),
             _ => w.sim.tape.choose(words - 8, "addr_any"),
         };
+        if big_eeprom && words > 0x8010 {
+            // the upper half of the 16 bit word address space
+            addr = match w.sim.tape.choose(3, "addr_high_class") {
+                0 => 0x8000 + w.sim.tape.choose(0x10, "addr_8000"),
+                1 => (0xfff0 + w.sim.tape.choose(8, "addr_top")).min(words - 8),
+                _ => (0x8000 + w.sim.tape.choose(0x7ff0, "addr_upper")).min(words - 8),
+            };
+            out.probes.insert("write_at_word_0x8000_or_above".into(), 1);
+        }
         w.sim.seg.devices[0].arm_sii_cmd_errors(cmd_errors.min(20));
+        if skip_fault {
+            let base = w.sim.seg.devices[0].serviced_counter;
+            w.sim.seg.devices[0].faults.skip_one = Some(base + skip_at);
+            w.sim.seg.devices[0].first_refused = None;
+        }
         let kind = w.sim.tape.choose(if crate::tape::gen() >= 2 { 8 } else { 5 }, "wr_kind");
         let payload: Vec<u8> = (0..8).map(|i| w.sim.tape.choose(256, "wr_byte") as u8 ^ i).collect();
         th.add(addr as u64);
@@ -928,7 +972,15 @@ pub fn c14_case(rs: u64, _nonce: u64, replay: Option<Vec<u32>>) -> CaseOutcome {
         match res {
             Err(e) => out.violations.push(sim_error_violation("eeprom_write_dangerously", &e)),
             Ok(Err(e)) => {
-                if n <= room {
+                if w.sim.seg.devices[0].first_refused.is_some() {
+                    // A datagram went unanswered: failing is right; only the addressed words may differ.
+                    out.faults.insert("single_datagram_unanswered".into(), 1);
+                    let lo = at & !1;
+                    let hi = (at + n + 1) & !1;
+                    if (0..after.len()).any(|i| (i < lo || i >= hi) && after[i] != before[i]) {
+                        out.violations.push(viol("generic-write-touched-other-words", format!("a failed {} byte write at word {:#06x} changed bytes outside its range", n, addr)));
+                    }
+                } else if n <= room {
                     out.violations.push(viol(if n % 2 == 1 { "generic-write-error-odd-length" } else { "generic-write-error" }, format!("writing {} bytes at word {:#06x} failed with {:?}", n, addr, e)));
                 }
             }
